@@ -315,6 +315,14 @@ def verify_to_dict(cls, fn_ast, namespace, p: PPoint, levels, passed, timeout_ms
 
     hk = {"tm_attr": tm_attr, "method_call": self_method}
     hk.update(hooks or {})
+    if hooks and "method_call" in hooks:
+        _user_mc = hooks["method_call"]
+
+        def _chained(ex, recv, name, args, kw, node, st, ctx):
+            r = _user_mc(ex, recv, name, args, kw, node, st, ctx)
+            return r if r is not None else self_method(ex, recv, name, args, kw, node, st, ctx)
+
+        hk["method_call"] = _chained
     ex = pysym.Executor(eng, namespace, hooks=hk)
     if inline:
         ex.inline = inline
@@ -377,6 +385,19 @@ def verify_to_dict(cls, fn_ast, namespace, p: PPoint, levels, passed, timeout_ms
                 a = eng.func(f"attr!{fv.name}", eng.V, eng.V)(self_c)
                 pre.append(z3.Or(*[eng.typeof(a) == eng.const(k) for k in ks]))
     paths = ex.run(fn_ast, args, pc=pre)
+    if inline:
+        # an inlined callee returns a conditional value: one path per alternative
+        def _split(path, depth=0):
+            v = path.value
+            if path.kind == "return" and isinstance(v, pysym.Ite) and depth < 200:
+                out = []
+                for c, alt in ((v.c, v.a), (z3.Not(v.c), v.b)):
+                    q = pysym.Path(path.pc + [c], "return", alt, path.env, path.ghosts, path.branch + [c])
+                    out += _split(q, depth + 1)
+                return out
+            return [path]
+
+        paths = [q for path in paths for q in _split(path)]
     hook_problems = {}
     if hooks_decl or getattr(p, "count_hooks", False):
         for path in paths:
@@ -865,9 +886,72 @@ def g2_task(payload):
                 obs.append(ob)
                 if not res["cover"]:
                     obs.append(dict(id=oid + "/cover", status="refuted", detail="no feasible returning path"))
+        obs += _dispatch_obligations(pid, label, cls, mod, p, units)
         return {"obligations": obs, "trusted": sorted(trusted)}
     finally:
         build.drop_module(mod)
+
+
+def _dispatch_obligations(pid, label, cls, mod, p, units):
+    """end to end: to_dict(dialect=D, **passed) through the default unit's dialect branch into the unit
+    compiled for D (inlined; the per-class cache is in its state after the first call) equals PROJECT with
+    the levels keyword > call dialect > Config.dialect > Config.  Only for schemas without nested classes
+    (the inlined callee is keyed by method name)."""
+    default = [(r, fn) for (r, fn, d) in units if d is None and "dialect" in [a.arg for a in fn.args.kwonlyargs]]
+    called = [(r, fn, d) for (r, fn, d) in units if d is not None]
+    if not default or not called or any(f.ann in ("Hd", "OptHd") for f in p.fields):
+        return []
+    obs = []
+    r0, fn0 = default[0]
+    r1, fn1, dialect = called[0]
+    params = [a.arg for a in fn0.args.kwonlyargs]
+    flagparams = [x for x in ("omit_none", "by_alias") if x in params]
+    if not flagparams:
+        return []
+
+    caches = [v for k, v in vars(cls).items() if k.startswith("__dialect_") and k.endswith("_cache__") and isinstance(v, dict)]
+
+    def cache_hook(ex, fnv, args, kw, node, st, ctx):
+        o = fnv.o if isinstance(fnv, Ob) else None
+        if getattr(o, "__name__", "") == "get" and any(getattr(o, "__self__", None) is c for c in caches):
+            return Ob(("closure", fn1))
+        return None
+
+    p2 = dataclasses.replace(p)
+    object.__setattr__(p2, "dialect_value", dialect)
+    for k in range(len(flagparams) + 1):
+        for sub in itertools.combinations(flagparams, k):
+            passed = frozenset(sub) | ({"context"} if "context" in params else set())
+            tag = "+".join(sorted(sub)) or "none"
+            # structural tag: a flag parameter that is not passed is forwarded with the default unit's own default,
+            # which differs from the option the call dialect carries (known finding F-C08-flag-default-over-dialect)
+            optname = {"omit_none": "omit_none", "by_alias": "serialize_by_alias"}
+            differs = any(resolve_option(p, optname[f], ("call", "cfgd", "cfg")) != resolve_option(p, optname[f], ("cfgd", "cfg")) for f in flagparams if f not in sub)
+            oid = f"{pid}.G2{label}/dispatch{{flag-default}}/passed={tag}" if differs else f"{pid}.G2{label}/dispatch/passed={tag}"
+            try:
+                res = verify_to_dict(cls, fn0, dict(r0.globals), p2, ("call", "cfgd", "cfg"), passed,
+                                     inline={fn1.name: (fn1, dict(r1.globals), None)}, hooks={"call": cache_hook})
+            except pysym.NotInSubset as e:
+                obs.append(dict(id=oid, status="undecided", detail=f"outside the verified subset: {e}", unit=r0.text[:600]))
+                continue
+            bad = [v for v in res["verdicts"] if v.status != "proved"]
+            ob = dict(id=oid, unit="C.__mashumaro_to_dict__[default -> call-dialect unit]", paths=res["paths"], queries=res["queries"],
+                      solver_s=round(res["solver_s"], 4), backend="z3", sample=r0.text[:1500])
+            if not bad:
+                ob["status"] = "proved"
+            else:
+                v0 = ([v for v in bad if v.status == "refuted"] or bad)[0]
+                ob["status"] = "refuted" if any(v.status == "refuted" for v in bad) else "unknown"
+                ob["detail"] = (f"to_dict(dialect=D{''.join(', ' + x + '=..' for x in sorted(sub))}) disagrees with PROJECT under keyword > call dialect > Config.dialect > Config on "
+                                f"{len(bad)}/{len(res['verdicts'])} paths; first: {v0.path.kind} {v0.path.value!r} {v0.detail}")[:900]
+                pv = [dict(zip(sub, vals)) for vals in itertools.product((False, True), repeat=len(sub))]
+                w = find_witness(cls, mod, p, ("call", "cfgd", "cfg"), True, pv)
+                if w:
+                    w["confirmed"] = True
+                    w["source"] = class_source(p)
+                ob["witness"] = w
+            obs.append(ob)
+    return obs
 
 
 def _point_json(p):
